@@ -4,7 +4,10 @@
    window and every fuel, what an observer has received is a PREFIX of what the
    specification [xview] entitles it to: the retained values at its subscription,
    in order, then the terminal notification if any, then every later
-   notification in call order -- nothing duplicated, reordered or invented. *)
+   notification in call order -- nothing duplicated, reordered or invented.
+   And nothing is lost: as long as the observer's wrapper is not stopped
+   (unsubscribed / terminated), received ++ handed to the wrapper ++ still queued
+   in its ScheduledObserver  IS  the whole entitlement. *)
 From Coq Require Import Sorting.Sorted.
 From RxVerif Require Import Base.Prelude Ops.Machine Subjects.Subject Subjects.Family Subjects.Replay
   Subjects.ReplaySpec Subjects.SubjectFacts Subjects.FamilyFacts Subjects.ReplayFacts.
@@ -119,10 +122,11 @@ Definition st_agree (s : @rstate A) (g : @rg A) : Prop :=
   end /\
   (rg_status g <> Disposed -> qinv b w (r_clock s) (r_queue s) (rg_all g)).
 
-Definition obs_ok (obsl : list nat) (view infl : list (ev A)) (os : @rostate A) (o : nat) (X : list (ev A)) : Prop :=
+Definition obs_ok (live : bool) (obsl : list nat) (view infl : list (ev A)) (os : @rostate A) (o : nat)
+  (X : list (ev A)) : Prop :=
   if ra_stopped os then prefix view X
-  else prefix (view ++ infl ++ so_queue (r_so os)) X /\
-       (In o obsl -> so_stopped (r_so os) = false -> view ++ infl ++ so_queue (r_so os) = X).
+  else view ++ infl ++ so_queue (r_so os) = X /\
+       (live = true -> In o obsl /\ so_stopped (r_so os) = false).
 
 Record Inv (c : @rcfg A) : Prop := {
   inv_st : st_agree (rc_st c) (cg c);
@@ -132,12 +136,12 @@ Record Inv (c : @rcfg A) : Prop := {
              subbed o (cops c) = false /\ rview o (rlog_of c) = [] /\ inflight o (rc_k c) = [];
   inv_some : forall o os, rc_obs c o = Some os ->
              subbed o (cops c) = true /\
-             obs_ok (r_observers (rc_st c)) (rview o (rlog_of c)) (inflight o (rc_k c)) os o (cx c o);
+             obs_ok (rg_live (cg c)) (r_observers (rc_st c)) (rview o (rlog_of c)) (inflight o (rc_k c)) os o (cx c o);
   inv_clean : clean (rc_k c) }.
 
-Lemma obs_ok_prefix obsl view infl os o X : obs_ok obsl view infl os o X -> prefix view X.
+Lemma obs_ok_prefix live obsl view infl os o X : obs_ok live obsl view infl os o X -> prefix view X.
 Proof.
-  unfold obs_ok. destruct (ra_stopped os); [tauto|]. intros [H _]. eapply prefix_of_app. exact H.
+  unfold obs_ok. destruct (ra_stopped os); [tauto|]. intros [H _]. rewrite <- H. now eexists.
 Qed.
 
 (* the statement, once the invariant is established *)
@@ -236,43 +240,23 @@ Proof.
 Qed.
 
 (* ---- transformations of the per-observer clause ---- *)
-Lemma obs_ok_incl obsl obsl' v i os o X :
-  (In o obsl' -> In o obsl) -> obs_ok obsl v i os o X -> obs_ok obsl' v i os o X.
+Lemma obs_ok_weaken live live' obsl obsl' v i os o X :
+  (live' = true -> live = true /\ (In o obsl -> In o obsl')) ->
+  obs_ok live obsl v i os o X -> obs_ok live' obsl' v i os o X.
 Proof.
-  unfold obs_ok. intros Hin. destruct (ra_stopped os); [tauto|]. intros [H1 H2]. split; [exact H1|]. auto.
+  unfold obs_ok. intros Hl. destruct (ra_stopped os); [tauto|]. intros [H1 H2]. split; [exact H1|].
+  intros E. destruct (Hl E) as [E1 Hin]. destruct (H2 E1) as [H3 H4]. auto.
 Qed.
 
-Lemma obs_ok_ext obsl v i (os os' : @rostate A) o X :
+Lemma obs_ok_ext live obsl v i (os os' : @rostate A) o X :
   ra_stopped os' = ra_stopped os -> so_queue (r_so os') = so_queue (r_so os) ->
-  (so_stopped (r_so os') = false -> so_stopped (r_so os) = false) ->
-  obs_ok obsl v i os o X -> obs_ok obsl v i os' o X.
-Proof.
-  unfold obs_ok. intros -> -> Hs. destruct (ra_stopped os); [tauto|]. intros [H1 H2]. split; [exact H1|]. auto.
-Qed.
+  so_stopped (r_so os') = so_stopped (r_so os) ->
+  obs_ok live obsl v i os o X -> obs_ok live obsl v i os' o X.
+Proof. unfold obs_ok. intros -> -> ->. tauto. Qed.
 
-Lemma obs_ok_stop obsl obsl' v i i' (os os' : @rostate A) o X :
-  ra_stopped os' = true -> obs_ok obsl v i os o X -> obs_ok obsl' v i' os' o X.
+Lemma obs_ok_stop live live' obsl obsl' v i i' (os os' : @rostate A) o X :
+  ra_stopped os' = true -> obs_ok live obsl v i os o X -> obs_ok live' obsl' v i' os' o X.
 Proof. intros H Hok. unfold obs_ok. rewrite H. eapply obs_ok_prefix. exact Hok. Qed.
-
-Lemma obs_ok_grow_out obsl obsl' v i (os : @rostate A) o X r :
-  (ra_stopped os = true \/ so_stopped (r_so os) = true \/ ~ In o obsl') ->
-  obs_ok obsl v i os o X -> obs_ok obsl' v i os o (X ++ r).
-Proof.
-  unfold obs_ok. intros Hc. destruct (ra_stopped os) eqn:E.
-  - intros H. now apply prefix_app_r.
-  - intros [H1 H2]. split; [now apply prefix_app_r|]. intros Hin Hs.
-    destruct Hc as [Hc|[Hc|Hc]]; [discriminate|congruence|contradiction].
-Qed.
-
-Lemma obs_ok_grow_in obsl obsl' v i (os : @rostate A) so' o X r :
-  ra_stopped os = false -> In o obsl -> so_stopped (r_so os) = false ->
-  so_queue so' = so_queue (r_so os) ++ r ->
-  obs_ok obsl v i os o X -> obs_ok obsl' v i (set_so os so') o (X ++ r).
-Proof.
-  unfold obs_ok. intros E Hin Hs Hq. cbn [set_so ra_stopped r_so]. rewrite E. intros [H1 H2].
-  specialize (H2 Hin Hs). rewrite Hq, !app_assoc. rewrite <- (app_assoc v i), H2.
-  split; [apply prefix_refl|reflexivity].
-Qed.
 
 (* ---- logs ---- *)
 Definition lops (l : list (@revent A)) : list (@rop A) := ops_of (rev l).
@@ -314,9 +298,11 @@ Lemma inv_op_generic p s m k l s' m' (extra : list (@revent A)) :
   (forall o, m' o = None -> m o = None /\ is_sub o p = false) ->
   (forall o os', m' o = Some os' ->
      (exists os, m o = Some os /\
-        obs_ok (r_observers s') (lview o l) (inflight o k) os' o (lx l o ++ rnote (lg l) p)) \/
+        obs_ok (rg_live (rg_step (lg l) p)) (r_observers s') (lview o l) (inflight o k) os' o
+               (lx l o ++ rnote (lg l) p)) \/
      (m o = None /\ is_sub o p = true /\
-        obs_ok (r_observers s') (lview o l) (inflight o k) os' o (rgreet b w (lg l)))) ->
+        obs_ok (rg_live (rg_step (lg l) p)) (r_observers s') (lview o l) (inflight o k) os' o
+               (rgreet b w (lg l)))) ->
   Inv (RCfg s' m' k (extra ++ REOp p :: l)).
 Proof.
   intros I Hex Hst Hnd Hdom Hnone Hsome.
@@ -337,9 +323,9 @@ Proof.
     unfold cops, rlog_of in *. cbn [rc_rlog] in *. fold (lops (extra ++ REOp p :: l)). fold (lops l) in H1.
     rewrite Hops, subbed_snoc, H1, Hsub. split; [reflexivity|]. split; [|exact H3].
     fold (lview o (extra ++ REOp p :: l)). rewrite Hview. exact H2.
-  - intros o os' Hm. unfold cx, cops, rlog_of. cbn [rc_rlog].
+  - intros o os' Hm. unfold cx, cg, cops, rlog_of. cbn [rc_rlog].
     fold (lops (extra ++ REOp p :: l)). fold (lview o (extra ++ REOp p :: l)). rewrite Hview, Hx.
-    rewrite Hops, subbed_snoc.
+    rewrite Hops, subbed_snoc, rg_run_snoc. fold (lg l).
     destruct (Hsome o os' Hm) as [[os [Hm0 Hok]]|[Hm0 [Hsub Hok]]].
     + destruct (inv_some _ I o os Hm0) as [H1 _]. unfold cops, rlog_of in H1. cbn [rc_rlog] in H1.
       fold (lops l) in H1. rewrite H1. split; [reflexivity|exact Hok].
@@ -352,7 +338,8 @@ Qed.
 (* the per-observer facts of the invariant, in the vocabulary of logs *)
 Lemma inv_some_l s m k l o os :
   Inv (RCfg s m k l) -> m o = Some os ->
-  subbed o (lops l) = true /\ obs_ok (r_observers s) (lview o l) (inflight o k) os o (lx l o).
+  subbed o (lops l) = true /\
+  obs_ok (rg_live (lg l)) (r_observers s) (lview o l) (inflight o k) os o (lx l o).
 Proof. intros I Hm. exact (inv_some _ I o os Hm). Qed.
 
 Lemma inv_none_l s m k l o :
@@ -362,26 +349,20 @@ Proof. intros I Hm. exact (inv_none _ I o Hm). Qed.
 Lemma inv_st_l s m k l : Inv (RCfg s m k l) -> st_agree s (lg l).
 Proof. intros I. exact (inv_st _ I). Qed.
 
-Lemma obs_ok_emit obsl obsl' v i (os os3 : @rostate A) o X n :
-  obs_ok obsl v i os o X ->
+Lemma obs_ok_emit live' obsl obsl' v i (os os3 : @rostate A) o X n :
+  obs_ok true obsl v i os o X ->
   ra_stopped os3 = ra_stopped os ->
   (In o obsl -> so_queue (r_so os3) = so_queue (so_on n (r_so os)) /\
                 so_stopped (r_so os3) = so_stopped (so_on n (r_so os))) ->
-  (~ In o obsl -> so_queue (r_so os3) = so_queue (r_so os) /\ so_stopped (r_so os3) = so_stopped (r_so os)) ->
-  (In o obsl' -> In o obsl) ->
-  obs_ok obsl' v i os3 o (X ++ [n]).
+  (live' = true -> is_terminal n = false /\ (In o obsl -> In o obsl')) ->
+  obs_ok live' obsl' v i os3 o (X ++ [n]).
 Proof.
-  unfold obs_ok. intros Hok Hra Hin Hout Hsub. rewrite Hra. destruct (ra_stopped os).
+  unfold obs_ok. intros Hok Hra Hin Hl. rewrite Hra. destruct (ra_stopped os).
   - now apply prefix_app_r.
-  - destruct Hok as [H1 H2]. destruct (in_dec Nat.eq_dec o obsl) as [Hi|Hni].
-    + destruct (Hin Hi) as [Hq Hs]. destruct (so_stopped (r_so os)) eqn:Est.
-      * rewrite (so_on_stopped n _ Est) in Hq, Hs. rewrite Hq. split; [now apply prefix_app_r|].
-        intros _ Hf. congruence.
-      * destruct (so_on_queue n _ Est) as [Hq2 _]. rewrite Hq, Hq2.
-        specialize (H2 Hi eq_refl). rewrite !app_assoc. rewrite <- (app_assoc v i), H2.
-        split; [apply prefix_refl|reflexivity].
-    + destruct (Hout Hni) as [Hq Hs]. rewrite Hq. split; [now apply prefix_app_r|].
-      intros Hi'. exfalso. apply Hni. now apply Hsub.
+  - destruct Hok as [H1 H2]. destruct (H2 eq_refl) as [Hi Hs]. destruct (Hin Hi) as [Hq Hst].
+    destruct (so_on_queue n _ Hs) as [Hq2 Hst2]. rewrite Hq, Hq2, Hst, Hst2. split.
+    + rewrite !app_assoc. rewrite <- (app_assoc v i), H1. reflexivity.
+    + intros E. destruct (Hl E) as [Ht Hsub]. split; [now apply Hsub|exact Ht].
 Qed.
 
 Lemma In_remove1_weak o x (l : list nat) : In x (remove1 o l) -> In x l.
@@ -429,7 +410,7 @@ Proof.
   - exact (inv_nodup _ I).
   - exact (inv_dom _ I).
   - intros o Hm. split; [exact Hm|now apply Hs].
-  - intros o os Hm. left. exists os. split; [exact Hm|]. rewrite Hn, app_nil_r.
+  - intros o os Hm. left. exists os. split; [exact Hm|]. rewrite Hn, app_nil_r, Hg.
     destruct (inv_some_l _ _ _ _ o os I Hm) as [_ Hok]. cbn [inflight] in Hok. exact Hok.
 Qed.
 
@@ -506,7 +487,10 @@ Proof.
     - destruct t as [x|e|]; [contradiction| |]; destruct Hstat as (S1&S2&S3); rewrite S3.
       + destruct (so_on_queue (Err e) so1 F2) as [Q _]. now rewrite Q, F1.
       + rewrite S1. destruct (so_on_queue Done so1 F2) as [Q _]. now rewrite Q, F1. }
-  pose proof (ensure_active_core o s2 so2) as Hcore. pose proof (ensure_active_so o s2 so2) as [Hq3 _].
+  assert (Hst2 : rg_live (lg l) = true -> so_stopped so2 = false).
+  { unfold rg_live, so2. change (r_exception s2) with (r_exception s). change (r_stopped s2) with (r_stopped s).
+    destruct (rg_status (lg l)); try discriminate. destruct Hstat as (S1&S2&S3). rewrite S3, S1. intros _. exact F2. }
+  pose proof (ensure_active_core o s2 so2) as Hcore. pose proof (ensure_active_so o s2 so2) as [Hq3 Hs3].
   destruct (ensure_active o s2 so2) as [s3 so3]. cbn [fst snd] in *.
   change (RCfg s3 (rupd m o (ROState false false true true 0 so3)) k (REOp (RSub o) :: l))
     with (RCfg s3 (rupd m o (ROState false false true true 0 so3)) k ([] ++ REOp (RSub o) :: l)).
@@ -527,11 +511,12 @@ Proof.
   - intros o2 os'. unfold rupd. destruct (Nat.eqb o2 o) eqn:E.
     + apply Nat.eqb_eq in E. subst o2. intros [= <-]. right. split; [exact Hm|]. split; [cbn; apply Nat.eqb_refl|].
       destruct (inv_none_l _ _ _ _ o I Hm) as (_ & Hv & Hi). cbn [inflight] in Hi. rewrite Hv, Hi.
-      unfold obs_ok. cbn [ra_stopped r_so app]. rewrite Hq3, Hso2. split; [apply prefix_refl|reflexivity].
+      unfold obs_ok. cbn [ra_stopped r_so app rg_step]. rewrite Hq3, Hso2. split; [reflexivity|].
+      intros El. split; [rewrite Hobs; apply in_or_app; right; now left|]. rewrite Hs3. now apply Hst2.
     + intros H2. left. exists os'. split; [exact H2|]. rewrite rnote_sub, app_nil_r.
       destruct (inv_some_l _ _ _ _ o2 os' I H2) as [_ Hok]. cbn [inflight] in Hok.
-      eapply obs_ok_incl; [|exact Hok]. rewrite Hobs. intros Hin. apply in_app_or in Hin.
-      destruct Hin as [Hin|[<-|[]]]; [exact Hin|]. rewrite Nat.eqb_refl in E. discriminate.
+      eapply obs_ok_weaken; [|exact Hok]. cbn [rg_step]. intros El. split; [exact El|].
+      rewrite Hobs. intros Hin. apply in_or_app. now left.
 Qed.
 
 (* subscribe on a disposed subject: fail() hands DisposedException to the observer *)
@@ -554,10 +539,11 @@ Proof.
     rewrite lops_got, lops_op, subbed_snoc, H1, lview_got, lview_op, H3. cbn [is_sub].
     rewrite (Nat.eqb_sym o o2), E. split; [reflexivity|]. split; [reflexivity|].
     rewrite inflight_app, inflight_ops. exact H4.
-  - intros o2 os'. unfold cx, cops, rlog_of. cbn [rc_rlog].
+  - intros o2 os'. unfold cx, cg, cops, rlog_of. cbn [rc_rlog].
     fold (lops (REGot o (Err disposed_exn) :: REOp (RSub o) :: l)).
     fold (lview o2 (REGot o (Err disposed_exn) :: REOp (RSub o) :: l)).
-    rewrite lops_got, lops_op, subbed_snoc, lview_got, lview_op, xview_snoc. cbn [orb is_sub].
+    rewrite lops_got, lops_op, subbed_snoc, lview_got, lview_op, xview_snoc, rg_run_snoc.
+    cbn [orb is_sub rg_step]. fold (lg l).
     rewrite inflight_app, inflight_ops. cbn [app inflight].
     unfold rupd. destruct (Nat.eqb o2 o) eqn:E.
     + apply Nat.eqb_eq in E. subst o2. intros [= <-]. rewrite Hsb, Nat.eqb_refl. split; [reflexivity|].
@@ -605,7 +591,9 @@ Proof.
       eapply obs_ok_stop; [exact Hs|exact Hok].
     + intros H2. left. exists os2. split; [exact H2|]. rewrite rnote_unsub, app_nil_r.
       destruct (inv_some_l _ _ _ _ o2 os2 I H2) as [_ Hok]. cbn [inflight] in Hok.
-      eapply obs_ok_incl; [|exact Hok]. apply Hsub.
+      eapply obs_ok_weaken; [|exact Hok]. cbn [rg_step]. intros El. split; [exact El|].
+      apply Nat.eqb_neq in E. intros Hin. destruct Hobs as [->| ->]; [exact Hin|].
+      apply (In_remove1 o _ o2 (inv_nodup _ I)). split; assumption.
 Qed.
 
 Lemma inv_dispose s m k l :
@@ -621,7 +609,7 @@ Proof.
   - intros o H2. split; [exact H2|reflexivity].
   - intros o os H2. left. exists os. split; [exact H2|]. rewrite rnote_dispose, app_nil_r.
     destruct (inv_some_l _ _ _ _ o os I H2) as [_ Hok]. cbn [inflight] in Hok.
-    eapply obs_ok_incl; [|exact Hok]. cbn. tauto.
+    eapply obs_ok_weaken; [|exact Hok]. cbn. discriminate.
 Qed.
 
 Lemma inv_advance d s m k l :
@@ -642,7 +630,9 @@ Proof.
     + exact (inv_dom _ I).
     + intros o H2. split; [exact H2|reflexivity].
     + intros o os H2. left. exists os. split; [exact H2|]. rewrite rnote_advance, app_nil_r.
-      destruct (inv_some_l _ _ _ _ o os I H2) as [_ Hok]. cbn [inflight] in Hok. exact Hok.
+      destruct (inv_some_l _ _ _ _ o os I H2) as [_ Hok]. cbn [inflight] in Hok.
+      eapply obs_ok_weaken; [|exact Hok]. cbn [rg_step].
+      replace (d <? 0) with false by (symmetry; now apply Z.ltb_ge). cbn. tauto.
 Qed.
 
 Definition is_sub_free (p : @rop A) : Prop := forall o, is_sub o p = false.
@@ -675,9 +665,12 @@ Qed.
 (* an emission that takes effect: every ScheduledObserver of the snapshot is handed n *)
 Lemma inv_emit_live p n s m k l s' (m' : @romap A) :
   Inv (RCfg s m (RIOp p :: k) l) ->
+  rg_live (lg l) = true ->
   rnote (lg l) p = [n] -> is_sub_free p ->
   st_agree s' (rg_step (lg l) p) ->
   NoDup (r_observers s') -> (forall o, In o (r_observers s') -> In o (r_observers s)) ->
+  (rg_live (rg_step (lg l) p) = true ->
+     is_terminal n = false /\ (forall o, In o (r_observers s) -> In o (r_observers s'))) ->
   (forall o, ~ In o (r_observers s) -> m' o = m o) ->
   (forall o os, In o (r_observers s) -> m o = Some os ->
      exists so', m' o = Some (set_so os so') /\
@@ -685,7 +678,7 @@ Lemma inv_emit_live p n s m k l s' (m' : @romap A) :
                  so_stopped so' = so_stopped (so_on n (r_so os))) ->
   Inv (RCfg s' m' k (REOp p :: l)).
 Proof.
-  intros I Hn Hp Hst Hnd Hsub Hout Hin.
+  intros I Hl Hn Hp Hst Hnd Hsub Hlive' Hout Hin.
   change (REOp p :: l) with ([] ++ REOp p :: l).
   assert (Hdom : forall o, In o (r_observers s) -> exists os, m o = Some os).
   { intros o Hi. destruct (m o) as [os|] eqn:E; [eauto|]. exfalso. exact (inv_dom _ I o Hi E). }
@@ -695,22 +688,24 @@ Proof.
     + destruct (Hdom o Hi) as [os Hm]. destruct (Hin o os Hi Hm) as [so' [E _]]. congruence.
     + rewrite (Hout o Hni) in Hm'. split; [exact Hm'|exact (Hp o)].
   - intros o os' Hm'. left. rewrite Hn.
+    assert (Hl' : rg_live (rg_step (lg l) p) = true -> is_terminal n = false /\
+                  (In o (r_observers s) -> In o (r_observers s'))).
+    { intros E. destruct (Hlive' E) as [T1 T2]. split; [exact T1|apply T2]. }
     destruct (in_dec Nat.eq_dec o (r_observers s)) as [Hi|Hni].
     + destruct (Hdom o Hi) as [os Hm]. destruct (Hin o os Hi Hm) as [so' [E [Q1 Q2]]].
       rewrite E in Hm'. injection Hm' as <-. exists os. split; [exact Hm|].
-      destruct (inv_some_l _ _ _ _ o os I Hm) as [_ Hok]. cbn [inflight] in Hok.
-      apply (obs_ok_emit (r_observers s) (r_observers s') _ _ os (set_so os so') o _ n Hok); cbn [set_so ra_stopped r_so].
+      destruct (inv_some_l _ _ _ _ o os I Hm) as [_ Hok]. cbn [inflight] in Hok. rewrite Hl in Hok.
+      apply (obs_ok_emit _ (r_observers s) (r_observers s') _ _ os (set_so os so') o _ n Hok);
+        cbn [set_so ra_stopped r_so].
       * reflexivity.
       * intros _. split; assumption.
-      * intros Hni. contradiction.
-      * apply Hsub.
+      * exact Hl'.
     + rewrite (Hout o Hni) in Hm'. exists os'. split; [exact Hm'|].
-      destruct (inv_some_l _ _ _ _ o os' I Hm') as [_ Hok]. cbn [inflight] in Hok.
-      apply (obs_ok_emit (r_observers s) (r_observers s') _ _ os' os' o _ n Hok).
+      destruct (inv_some_l _ _ _ _ o os' I Hm') as [_ Hok]. cbn [inflight] in Hok. rewrite Hl in Hok.
+      apply (obs_ok_emit _ (r_observers s) (r_observers s') _ _ os' os' o _ n Hok).
       * reflexivity.
       * intros Hi. contradiction.
-      * intros _. split; reflexivity.
-      * apply Hsub.
+      * exact Hl'.
 Qed.
 
 Lemma live_status (g : @rg A) : rg_status g = Live -> rg_live g = true.
@@ -740,6 +735,7 @@ Proof.
   destruct (so_each ensure_active (r_observers s) s2 m2) as [s3 m3]. cbn [fst snd] in *.
   pose proof (same_core_trans _ _ _ A1 B1) as [Hobs Hcore].
   apply (inv_emit_live (RNext v) (Next v) s m k l s3 m3 I).
+  - exact Hl.
   - unfold rnote. now rewrite Hl.
   - intros o. reflexivity.
   - cbn [rg_step]. rewrite Hl. apply (st_agree_same s1 s3 _ Hcore).
@@ -748,13 +744,14 @@ Proof.
     intros _. apply qinv_trim. rewrite <- Hc. apply qinv_append. exact Hq.
   - rewrite Hobs. exact (inv_nodup _ I).
   - rewrite Hobs. cbn. tauto.
+  - intros _. split; [reflexivity|]. rewrite Hobs. cbn. tauto.
   - intros o Hni. rewrite (B2 o Hni). exact (A2 o Hni).
   - intros o os Hi Hm. destruct (A3 o os Hi Hm) as [so' [E2 ->]].
     destruct (B3 o _ Hi E2) as [so'' [E3 [Q1 Q2]]]. cbn [set_so r_so] in *.
     exists so''. split; [rewrite E3; destruct os; reflexivity|]. split; assumption.
 Qed.
 
-Lemma inv_final_live p t s m k l :
+Lemma inv_final_live p (t : ev A) s m k l :
   Inv (RCfg s m (RIOp p :: k) l) -> r_disposed s = false -> r_stopped s = false ->
   ((exists e, p = RErr e /\ t = Err e) \/ (p = RDone /\ t = Done)) ->
   Inv (rstep_op react p s m k l).
@@ -784,6 +781,7 @@ Proof.
   cbn [fst snd] in *. destruct A1 as [Hobs Hcore].
   assert (Hobs1 : r_observers s1 = []) by (unfold s1; destruct t; reflexivity).
   apply (inv_emit_live p t s m k l s2 m2 I).
+  - exact Hl.
   - unfold rnote. rewrite Hl. destruct Hp as [[e [-> ->]]|[-> ->]]; reflexivity.
   - intros o. destruct Hp as [[e [-> _]]|[-> _]]; reflexivity.
   - apply (st_agree_same s1 s2 _ Hcore).
@@ -794,6 +792,7 @@ Proof.
       intros _. apply qinv_trim. exact Hq.
   - rewrite Hobs, Hobs1. constructor.
   - rewrite Hobs, Hobs1. intros o [].
+  - destruct Hp as [[e [-> ->]]|[-> ->]]; cbn [rg_step]; rewrite Hl; cbn; discriminate.
   - exact A2.
   - exact A3.
 Qed.
@@ -804,17 +803,311 @@ Proof.
   intros I. destruct p as [o|o|v|e| | |d].
   - now apply inv_sub.
   - now apply inv_unsub.
-  - destruct (r_disposed s) eqn:Hd; [apply inv_emit_dead; [exact I|exact I0|now left]|].
-    destruct (r_stopped s) eqn:Hs; [apply inv_emit_dead; [exact I|exact I0|now right]|].
+  - destruct (r_disposed s) eqn:Hd; [apply inv_emit_dead; [exact I|constructor|now left]|].
+    destruct (r_stopped s) eqn:Hs; [apply inv_emit_dead; [exact I|constructor|now right]|].
     now apply inv_next_live.
-  - destruct (r_disposed s) eqn:Hd; [apply inv_emit_dead; [exact I|exact I0|now left]|].
-    destruct (r_stopped s) eqn:Hs; [apply inv_emit_dead; [exact I|exact I0|now right]|].
+  - destruct (r_disposed s) eqn:Hd; [apply inv_emit_dead; [exact I|constructor|now left]|].
+    destruct (r_stopped s) eqn:Hs; [apply inv_emit_dead; [exact I|constructor|now right]|].
     apply (inv_final_live (RErr e) (Err e)); try assumption. left. eauto.
-  - destruct (r_disposed s) eqn:Hd; [apply inv_emit_dead; [exact I|exact I0|now left]|].
-    destruct (r_stopped s) eqn:Hs; [apply inv_emit_dead; [exact I|exact I0|now right]|].
+  - destruct (r_disposed s) eqn:Hd; [apply inv_emit_dead; [exact I|constructor|now left]|].
+    destruct (r_stopped s) eqn:Hs; [apply inv_emit_dead; [exact I|constructor|now right]|].
     apply (inv_final_live RDone Done); try assumption. right. split; reflexivity.
   - now apply inv_dispose.
   - now apply inv_advance.
 Qed.
 
+(* ---- instructions that do not start an operation ---- *)
+Lemma inv_instr_generic s m i k l s' (m' : @romap A) k' (extra : list (@revent A)) :
+  Inv (RCfg s m (i :: k) l) ->
+  lops (extra ++ l) = lops l ->
+  same_but_obs s s' -> NoDup (r_observers s') ->
+  (forall o, In o (r_observers s') -> m' o <> None) ->
+  (forall o, m' o = None ->
+     m o = None /\ lview o (extra ++ l) = lview o l /\ inflight o k' = inflight o (i :: k)) ->
+  (forall o os', m' o = Some os' -> exists os, m o = Some os /\
+     (obs_ok (rg_live (lg l)) (r_observers s) (lview o l) (inflight o (i :: k)) os o (lx l o) ->
+      obs_ok (rg_live (lg l)) (r_observers s') (lview o (extra ++ l)) (inflight o k') os' o (lx l o))) ->
+  clean k' ->
+  Inv (RCfg s' m' k' (extra ++ l)).
+Proof.
+  intros I Hops Hcore Hnd Hdom Hnone Hsome Hclean.
+  constructor; cbn [rc_st rc_obs rc_k rc_rlog].
+  - unfold cg, cops, rlog_of. cbn [rc_rlog]. fold (lops (extra ++ l)). rewrite Hops.
+    exact (st_agree_same s s' _ Hcore (inv_st_l _ _ _ _ I)).
+  - exact Hnd.
+  - exact Hdom.
+  - intros o Hm. destruct (Hnone o Hm) as (Hm0 & Hv & Hi). destruct (inv_none_l _ _ _ _ o I Hm0) as (H1 & H2 & H3).
+    unfold cops, rlog_of. cbn [rc_rlog]. fold (lops (extra ++ l)). fold (lview o (extra ++ l)).
+    rewrite Hops, Hv, Hi. auto.
+  - intros o os' Hm. destruct (Hsome o os' Hm) as [os [Hm0 Himp]].
+    destruct (inv_some_l _ _ _ _ o os I Hm0) as [H1 Hok].
+    unfold cx, cg, cops, rlog_of. cbn [rc_rlog]. fold (lops (extra ++ l)). fold (lview o (extra ++ l)).
+    rewrite Hops. fold (lg l). split; [exact H1|]. apply Himp. exact Hok.
+  - exact Hclean.
+Qed.
+
+Lemma rupd_other (m : @romap A) o x o2 : o2 <> o -> rupd m o x o2 = m o2.
+Proof. intros H. unfold rupd. destruct (Nat.eqb o2 o) eqn:E; [apply Nat.eqb_eq in E; contradiction|reflexivity]. Qed.
+
+Lemma inv_resched o s m k l :
+  Inv (RCfg s m (RIResched o :: k) l) ->
+  Inv (RCfg (with_sched (r_sched s ++ [(r_fresh s, o, false)]) (S (r_fresh s)) s) m k l).
+Proof.
+  intros I. apply (inv_instr_generic s m (RIResched o) k l _ m k [] I); try reflexivity.
+  - repeat split.
+  - exact (inv_nodup _ I).
+  - exact (inv_dom _ I).
+  - intros o2 H2. auto.
+  - intros o2 os H2. exists os. split; [exact H2|]. cbn [app inflight]. tauto.
+  - exact (clean_tail _ _ (inv_clean _ I)).
+Qed.
+
+Lemma inv_handle o s m k l :
+  Inv (RCfg s m (RIHandle o :: k) l) -> Inv (rstep (RCfg s m (RIHandle o :: k) l)).
+Proof.
+  intros I. unfold Replay.rstep. cbn [rc_k rc_st rc_obs rc_rlog].
+  destruct (m o) as [os|] eqn:Hm.
+  - apply (inv_instr_generic s m (RIHandle o) k l s _ k [] I); try reflexivity.
+    + apply same_but_obs_refl.
+    + exact (inv_nodup _ I).
+    + intros o2 Hi. unfold rupd. destruct (Nat.eqb o2 o); [discriminate|]. exact (inv_dom _ I o2 Hi).
+    + intros o2. unfold rupd. destruct (Nat.eqb o2 o); [discriminate|]. auto.
+    + intros o2 os2. unfold rupd. destruct (Nat.eqb o2 o) eqn:E.
+      * apply Nat.eqb_eq in E. subst o2. intros [= <-]. exists os. split; [exact Hm|]. cbn [app inflight].
+        apply obs_ok_ext; reflexivity.
+      * intros H2. exists os2. split; [exact H2|]. cbn [app inflight]. tauto.
+    + exact (clean_tail _ _ (inv_clean _ I)).
+  - apply (inv_instr_generic s m (RIHandle o) k l s m k [] I); try reflexivity.
+    + apply same_but_obs_refl.
+    + exact (inv_nodup _ I).
+    + exact (inv_dom _ I).
+    + auto.
+    + intros o2 os2 H2. exists os2. split; [exact H2|]. cbn [app inflight]. tauto.
+    + exact (clean_tail _ _ (inv_clean _ I)).
+Qed.
+
+Lemma inv_adofin o s m k l :
+  Inv (RCfg s m (RIAdoFin o :: k) l) -> Inv (rstep (RCfg s m (RIAdoFin o :: k) l)).
+Proof.
+  intros I. unfold Replay.rstep. cbn [rc_k rc_st rc_obs rc_rlog].
+  destruct (m o) as [os|] eqn:Hm.
+  - destruct (rado_dispose_spec s os o) as (Hs & Hcore & Hobs).
+    destruct (rado_dispose s os o) as [s' os']. cbn [fst snd] in *.
+    assert (Hsub : forall x, In x (r_observers s') -> In x (r_observers s)).
+    { intros x. destruct Hobs as [->| ->]; [tauto|apply In_remove1_weak]. }
+    apply (inv_instr_generic s m (RIAdoFin o) k l s' _ k [] I); try reflexivity.
+    + exact Hcore.
+    + destruct Hobs as [->| ->]; [exact (inv_nodup _ I)|apply NoDup_remove1; exact (inv_nodup _ I)].
+    + intros o2 Hi. unfold rupd. destruct (Nat.eqb o2 o); [discriminate|]. exact (inv_dom _ I o2 (Hsub _ Hi)).
+    + intros o2. unfold rupd. destruct (Nat.eqb o2 o); [discriminate|]. auto.
+    + intros o2 os2. unfold rupd. destruct (Nat.eqb o2 o) eqn:E.
+      * apply Nat.eqb_eq in E. subst o2. intros [= <-]. exists os. split; [exact Hm|]. cbn [app inflight].
+        apply obs_ok_stop. exact Hs.
+      * apply Nat.eqb_neq in E. intros H2. exists os2. split; [exact H2|]. cbn [app inflight].
+        apply obs_ok_weaken. intros El. split; [exact El|]. intros Hin.
+        destruct Hobs as [->| ->]; [exact Hin|]. apply (In_remove1 o _ o2 (inv_nodup _ I)). split; assumption.
+    + exact (clean_tail _ _ (inv_clean _ I)).
+  - apply (inv_instr_generic s m (RIAdoFin o) k l s m k [] I); try reflexivity.
+    + apply same_but_obs_refl.
+    + exact (inv_nodup _ I).
+    + exact (inv_dom _ I).
+    + auto.
+    + intros o2 os2 H2. exists os2. split; [exact H2|]. cbn [app inflight]. tauto.
+    + exact (clean_tail _ _ (inv_clean _ I)).
+Qed.
+
+Lemma inflight_deliver_same o n k : inflight o (RIDeliver o n :: k) = n :: inflight o k.
+Proof. cbn [inflight]. now rewrite Nat.eqb_refl. Qed.
+Lemma inflight_deliver_other o o2 n k : o2 <> o -> inflight o2 (RIDeliver o n :: k) = inflight o2 k.
+Proof. intros H. cbn [inflight]. destruct (Nat.eqb o o2) eqn:E; [apply Nat.eqb_eq in E; congruence|reflexivity]. Qed.
+
+Lemma obs_ok_stopped_infl live obsl v i i' (os : @rostate A) o X :
+  ra_stopped os = true -> obs_ok live obsl v i os o X -> obs_ok live obsl v i' os o X.
+Proof. unfold obs_ok. intros ->. tauto. Qed.
+
+Lemma inv_deliver o n s m k l :
+  Inv (RCfg s m (RIDeliver o n :: k) l) -> Inv (rstep (RCfg s m (RIDeliver o n :: k) l)).
+Proof.
+  intros I. unfold Replay.rstep. cbn [rc_k rc_st rc_obs rc_rlog].
+  assert (Hck : clean k) by exact (clean_tail _ _ (inv_clean _ I)).
+  destruct (m o) as [os|] eqn:Hm.
+  2:{ exfalso. destruct (inv_none_l _ _ _ _ o I Hm) as (_ & _ & Hi).
+      rewrite inflight_deliver_same in Hi. discriminate. }
+  destruct (ra_stopped os) eqn:Hst.
+  - (* AutoDetachObserver.on_xxx: `if self.is_stopped: return` *)
+    apply (inv_instr_generic s m (RIDeliver o n) k l s m k [] I); try reflexivity.
+    + apply same_but_obs_refl.
+    + exact (inv_nodup _ I).
+    + exact (inv_dom _ I).
+    + intros o2 H2. split; [exact H2|]. split; [reflexivity|].
+      destruct (Nat.eq_dec o2 o) as [->|Hne]; [congruence|]. now rewrite inflight_deliver_other.
+    + intros o2 os2 H2. exists os2. split; [exact H2|]. cbn [app].
+      destruct (Nat.eq_dec o2 o) as [->|Hne].
+      * rewrite Hm in H2. injection H2 as <-. now apply obs_ok_stopped_infl.
+      * rewrite inflight_deliver_other by exact Hne. tauto.
+    + exact Hck.
+  - assert (Hgen : forall stop kk, clean kk -> (forall o2, inflight o2 kk = inflight o2 k) ->
+                   (is_terminal n = true -> stop = true) ->
+                   Inv (RCfg s (rupd m o (rcalled stop os)) kk ([REGot o n] ++ l))).
+    { intros stop kk Hckk Hinf Hterm.
+      apply (inv_instr_generic s m (RIDeliver o n) k l s _ kk [REGot o n] I).
+      - cbn [app]. apply lops_got.
+      - apply same_but_obs_refl.
+      - exact (inv_nodup _ I).
+      - intros o2 Hi. unfold rupd. destruct (Nat.eqb o2 o); [discriminate|]. exact (inv_dom _ I o2 Hi).
+      - intros o2. unfold rupd. destruct (Nat.eqb o2 o) eqn:E; [discriminate|]. intros H2.
+        apply Nat.eqb_neq in E. split; [exact H2|]. cbn [app]. rewrite lview_got.
+        destruct (Nat.eqb o o2) eqn:E2; [apply Nat.eqb_eq in E2; congruence|]. rewrite app_nil_r.
+        split; [reflexivity|]. rewrite Hinf. now rewrite inflight_deliver_other.
+      - intros o2 os2. unfold rupd. destruct (Nat.eqb o2 o) eqn:E.
+        + apply Nat.eqb_eq in E. subst o2. intros [= <-]. exists os. split; [exact Hm|].
+          cbn [app]. rewrite lview_got, Nat.eqb_refl, inflight_deliver_same, Hinf.
+          unfold obs_ok. cbn [rcalled ra_stopped r_so]. rewrite Hst. cbn [orb].
+          intros [H1 H2]. destruct stop.
+          * rewrite <- H1. exists (inflight o k ++ so_queue (r_so os)). rewrite <- app_assoc. reflexivity.
+          * rewrite <- app_assoc. cbn [app]. split; [exact H1|exact H2].
+        + apply Nat.eqb_neq in E. intros H2. exists os2. split; [exact H2|]. cbn [app].
+          rewrite lview_got. destruct (Nat.eqb o o2) eqn:E2; [apply Nat.eqb_eq in E2; congruence|].
+          rewrite app_nil_r, Hinf, inflight_deliver_other by exact E. tauto.
+      - exact Hckk. }
+    destruct n as [v|e|].
+    + apply (Hgen false).
+      * now apply clean_ops_app.
+      * intros o2. now rewrite inflight_app, inflight_ops.
+      * discriminate.
+    + apply (Hgen true).
+      * apply clean_ops_app. exact Hck.
+      * intros o2. now rewrite inflight_app, inflight_ops.
+      * reflexivity.
+    + apply (Hgen true).
+      * apply clean_ops_app. exact Hck.
+      * intros o2. now rewrite inflight_app, inflight_ops.
+      * reflexivity.
+Qed.
+
+Lemma inv_drain s m k l :
+  Inv (RCfg s m (RIDrain :: k) l) -> Inv (rstep (RCfg s m (RIDrain :: k) l)).
+Proof.
+  intros I. unfold Replay.rstep. cbn [rc_k rc_st rc_obs rc_rlog].
+  assert (Hnod : nodeliver k) by exact (inv_clean _ I).
+  assert (Hsame : forall s' kk, same_but_obs s s' -> r_observers s' = r_observers s ->
+                  (kk = k \/ kk = RIDrain :: k) -> Inv (RCfg s' m kk l)).
+  { intros s' kk Hcore Hobs Hkk.
+    apply (inv_instr_generic s m RIDrain k l s' m kk [] I); try reflexivity.
+    - exact Hcore.
+    - rewrite Hobs. exact (inv_nodup _ I).
+    - rewrite Hobs. exact (inv_dom _ I).
+    - intros o H2. split; [exact H2|]. split; [reflexivity|]. destruct Hkk as [->| ->]; reflexivity.
+    - intros o os H2. exists os. split; [exact H2|]. cbn [app]. rewrite Hobs.
+      destruct Hkk as [->| ->]; cbn [inflight]; tauto.
+    - destruct Hkk as [->| ->]; [now apply nodeliver_clean|exact Hnod]. }
+  destruct (r_sched s) as [|[[it o] cancelled] rest].
+  - apply Hsame; [apply same_but_obs_refl|reflexivity|now left].
+  - set (s1 := with_sched rest (r_fresh s) s).
+    destruct cancelled; [apply Hsame; [repeat split|reflexivity|now right]|].
+    destruct (m o) as [os|] eqn:Hm; [|apply Hsame; [repeat split|reflexivity|now right]].
+    destruct (so_queue (r_so os)) as [|n q] eqn:Hq.
+    + (* nothing queued: is_acquired = False *)
+      apply (inv_instr_generic s m RIDrain k l s1 _ (RIDrain :: k) [] I); try reflexivity.
+      * repeat split.
+      * exact (inv_nodup _ I).
+      * intros o2 Hi. unfold rupd. destruct (Nat.eqb o2 o); [discriminate|]. exact (inv_dom _ I o2 Hi).
+      * intros o2. unfold rupd. destruct (Nat.eqb o2 o); [discriminate|]. auto.
+      * intros o2 os2. unfold rupd. destruct (Nat.eqb o2 o) eqn:E.
+        -- apply Nat.eqb_eq in E. subst o2. intros [= <-]. exists os. split; [exact Hm|]. cbn [app].
+           apply obs_ok_ext; cbn [set_so ra_stopped r_so so_queue so_stopped]; [reflexivity|now rewrite Hq|reflexivity].
+        -- intros H2. exists os2. split; [exact H2|]. cbn [app]. tauto.
+      * exact Hnod.
+    + (* work = queue.pop(0) *)
+      apply (inv_instr_generic s m RIDrain k l s1 _ (RIDeliver o n :: RIResched o :: RIDrain :: k) [] I);
+        try reflexivity.
+      * repeat split.
+      * exact (inv_nodup _ I).
+      * intros o2 Hi. unfold rupd. destruct (Nat.eqb o2 o); [discriminate|]. exact (inv_dom _ I o2 Hi).
+      * intros o2. unfold rupd. destruct (Nat.eqb o2 o) eqn:E; [discriminate|]. intros H2.
+        apply Nat.eqb_neq in E. split; [exact H2|]. split; [reflexivity|].
+        rewrite inflight_deliver_other by exact E. reflexivity.
+      * intros o2 os2. unfold rupd. destruct (Nat.eqb o2 o) eqn:E.
+        -- apply Nat.eqb_eq in E. subst o2. intros [= <-]. exists os. split; [exact Hm|]. cbn [app].
+           rewrite inflight_deliver_same. cbn [inflight]. rewrite (Hnod o).
+           unfold obs_ok. cbn [set_so ra_stopped r_so so_queue so_stopped]. rewrite Hq. cbn [app]. tauto.
+        -- apply Nat.eqb_neq in E. intros H2. exists os2. split; [exact H2|]. cbn [app].
+           rewrite inflight_deliver_other by exact E. cbn [inflight]. tauto.
+      * cbn [clean]. exact Hnod.
+Qed.
+
+Theorem step_inv c : Inv c -> Inv (rstep c).
+Proof.
+  destruct c as [s m k l]. intros I. destruct k as [|i k].
+  - unfold Replay.rstep. exact I.
+  - destruct i as [p|o n|o|o|o|].
+    + unfold Replay.rstep. cbn [rc_k rc_st rc_obs rc_rlog]. now apply step_op_inv.
+    + now apply inv_deliver.
+    + now apply inv_adofin.
+    + unfold Replay.rstep. cbn [rc_k rc_st rc_obs rc_rlog]. now apply inv_resched.
+    + now apply inv_handle.
+    + now apply inv_drain.
+Qed.
+
 End Tree.
+
+(* the initial configuration satisfies the invariant *)
+Lemma Inv_init {A} (bs w : option Z) (top : list (@rop A)) : Inv (bufsize_of bs) w (rinit_cfg bs w top).
+Proof.
+  constructor; cbn.
+  - unfold st_agree. cbn. split; [destruct bs; reflexivity|]. split; [reflexivity|]. split; [reflexivity|].
+    split; [repeat split|]. intros _. apply qinv_init.
+  - constructor.
+  - intros o [].
+  - intros o _. split; [reflexivity|]. split; [reflexivity|].
+    induction top as [|p t IH]; [reflexivity|exact IH].
+  - intros o os H. discriminate.
+  - induction top as [|p t IH]; [exact I|]. cbn. intros o.
+    clear IH. induction t as [|q t IH]; [reflexivity|exact IH].
+Qed.
+
+(* C22, arbitrary call trees: what observer o has received at any point of any
+   run is a prefix of  (retained values at its subscription, terminal if any)
+   ++ (every later notification, in call order)  *)
+Theorem replay_prefix {A} (react : nat -> nat -> list (@rop A)) (bs w : option Z) (top : list (@rop A))
+        (fuel o : nat) :
+  let c := rrun react fuel (rinit_cfg bs w top) in
+  prefix (rview o (rlog_of c)) (xview (bufsize_of bs) w o false rg_init (ops_of (rlog_of c))).
+Proof.
+  cbv zeta. apply (Inv_prefix react (bufsize_of bs) w).
+  apply (rrun_ind react (Inv (bufsize_of bs) w)); [apply step_inv|apply Inv_init].
+Qed.
+
+(* nothing is lost: as long as o's wrapper is not stopped (o has neither
+   unsubscribed nor received a terminal notification), what it received, plus
+   what has been handed to its wrapper but not processed yet, plus what is still
+   queued in its ScheduledObserver, is ALL it is entitled to *)
+Theorem replay_nothing_lost {A} (react : nat -> nat -> list (@rop A)) (bs w : option Z) (top : list (@rop A))
+        (fuel o : nat) os :
+  let c := rrun react fuel (rinit_cfg bs w top) in
+  rc_obs c o = Some os -> ra_stopped os = false ->
+  rview o (rlog_of c) ++ inflight o (rc_k c) ++ so_queue (r_so os)
+  = xview (bufsize_of bs) w o false rg_init (ops_of (rlog_of c)).
+Proof.
+  cbv zeta. intros Hm Hs.
+  assert (I : Inv (bufsize_of bs) w (rrun react fuel (rinit_cfg bs w top))).
+  { apply (rrun_ind react (Inv (bufsize_of bs) w)); [apply step_inv|apply Inv_init]. }
+  destruct (inv_some _ _ _ I o os Hm) as [_ Hok]. unfold obs_ok in Hok. rewrite Hs in Hok.
+  exact (proj1 Hok).
+Qed.
+
+(* ... and while the subject is live such an observer is registered and its
+   ScheduledObserver accepts notifications: the next emission will reach its queue *)
+Theorem replay_live_registered {A} (react : nat -> nat -> list (@rop A)) (bs w : option Z) (top : list (@rop A))
+        (fuel o : nat) os :
+  let c := rrun react fuel (rinit_cfg bs w top) in
+  rc_obs c o = Some os -> ra_stopped os = false ->
+  rg_live (rg_run rg_init (ops_of (rlog_of c))) = true ->
+  In o (r_observers (rc_st c)) /\ so_stopped (r_so os) = false.
+Proof.
+  cbv zeta. intros Hm Hs Hl.
+  assert (I : Inv (bufsize_of bs) w (rrun react fuel (rinit_cfg bs w top))).
+  { apply (rrun_ind react (Inv (bufsize_of bs) w)); [apply step_inv|apply Inv_init]. }
+  destruct (inv_some _ _ _ I o os Hm) as [_ Hok]. unfold obs_ok in Hok. rewrite Hs in Hok.
+  exact (proj2 Hok Hl).
+Qed.
